@@ -471,16 +471,16 @@ func ptrTo(v interface{}) interface{} {
 }
 
 type builder struct {
-	r        *rand.Rand
-	pathSep  bool // nested *Config values are built with PathSep(".")
-	noInline bool
-	tag      string // struct tag name the structs are written with ("" = the default `config`, no option needed)
-	decoys   bool   // fields may carry a second tag of another name that says something else
-	err      error  // first error building a nested *Config
-	cfgs     []cfgSnap
+	r         *rand.Rand
+	pathSep   bool // nested *Config values are built with PathSep(".")
+	noInline  bool
+	tag       string // struct tag name the structs are written with ("" = the default `config`, no option needed)
+	decoys    bool   // fields may carry a second tag of another name that says something else
+	err       error  // first error building a nested *Config
+	cfgs      []cfgSnap
 	inlineCfg int // inline fields carried by an existing Config
-	evals    int
-	parts    map[string]bool
+	evals     int
+	parts     map[string]bool
 }
 
 func newBuilder(r *rand.Rand, pathSep bool) *builder {
@@ -818,7 +818,6 @@ func (b *builder) structOf(s *sp, child int, ptr bool) interface{} {
 					}
 				} else {
 					b.remember(c)
-					delete(b.parts, "inline-map")
 					switch b.r.Intn(3) {
 					case 0:
 						b.parts["inline-*Config"] = true
@@ -870,6 +869,52 @@ type kase struct {
 	verbose bool
 	refWalk []string
 	refName string
+	o       gen.TreeOpts
+	// set around a call whose input comes from a builder
+	snaps     []cfgSnap // the *Config values inside the input
+	inlineCfg bool      // the input has inline fields carried by an existing Config
+}
+
+// with runs f while the observation knows what the builder put into the input.
+func (k *kase) with(b *builder, f func()) {
+	k.snaps, k.inlineCfg = b.cfgs, b.inlineCfg > 0
+	f()
+	k.snaps, k.inlineCfg = nil, false
+}
+
+// onlyMissing: the observed data hold nothing the tree does not hold, but
+// lack some of its settings.
+func onlyMissing(want *model.Node, got interface{}) bool {
+	return model.CanonIfc(got) != want.Canon() && within(want, model.FromIfc(got))
+}
+
+func within(want, got *model.Node) bool {
+	switch {
+	case got.Canon() == "nil":
+		return true
+	case want == nil || want.Kind != got.Kind:
+		return false
+	case got.Kind == model.KPrim:
+		return model.PrimCanon(want.Prim) == model.PrimCanon(got.Prim)
+	}
+	if len(got.A) > 0 {
+		// a list may have lost its tail together with the settings below it
+		if len(got.A) > len(want.A) || len(got.D) > 0 {
+			return false
+		}
+		for i, e := range got.A {
+			if !within(want.A[i], e) {
+				return false
+			}
+		}
+		return true
+	}
+	for key, e := range got.D {
+		if !within(want.D[key], e) {
+			return false
+		}
+	}
+	return true
 }
 
 var sepOpts = []ucfg.Option{ucfg.PathSep(".")}
@@ -1048,10 +1093,16 @@ func (k *kase) checkRep(name string, src interface{}, pathSep bool, extra ...ucf
 			k.res.Violate("number-not-preserved:"+typ, "a number of the input comes back as another number: %s; unpack gives %s, the tree is %s; %s", where, got, k.want, what)
 			return
 		}
+		if k.inlineCfg && onlyMissing(k.t, x1) {
+			k.res.Violate("inline-config-field:settings-missing", "the input has struct fields tagged inline that hold an existing Config, and settings are missing: unpack gives %s, the tree is %s; %s", got, k.want, what)
+			return
+		}
 		k.res.Violate("representation-disagrees:"+name, "unpack gives %s, the tree is %s; %s", got, k.want, what)
 		return
 	}
 	w1 := k.walk(what, c1)
+	k.checkSnaps(k.snaps, what)
+	k.again(what, src, append(append([]ucfg.Option{}, opts...), extra...), opts, got, w1)
 	if k.refWalk == nil {
 		k.refWalk, k.refName = w1, label
 	} else if !sameWalk(w1, k.refWalk) {
@@ -1079,6 +1130,33 @@ func (k *kase) checkRep(name string, src interface{}, pathSep bool, extra ...ucf
 		k.res.Violate("refeed-structure-differs", "config rebuilt from its own unpacked data is stored differently: %s; %s", diffWalk(w1, w2), what2)
 	}
 	k.res.Ev("refeed_checked", 1)
+}
+
+// again: the input is data, not consumed - normalising the same Go value once
+// more gives the same config.
+func (k *kase) again(what string, src interface{}, opts, unpackOpts []ucfg.Option, got string, w1 []string) {
+	what = "second call with the same Go value: " + what
+	c, err, ok := k.newFrom(what, src, opts)
+	if !ok {
+		return
+	}
+	if err != nil {
+		k.res.Violate("second-call-with-same-value:error:"+reasonShort(err), "NewFrom returned %v, the first call succeeded; %s", err, what)
+		return
+	}
+	x, ok := k.unpack(what, c, unpackOpts)
+	if !ok {
+		return
+	}
+	k.res.Ev("second_call_with_same_value_checked", 1)
+	if g := model.CanonIfc(x); g != got {
+		k.res.Violate("second-call-with-same-value:disagrees", "unpack gives %s, the first call gave %s; %s", g, got, what)
+		return
+	}
+	if w := k.walk(what, c); w1 != nil && !sameWalk(w, w1) {
+		k.res.Violate("second-call-with-same-value:structure-differs", "stored structure differs from the first call: %s; %s", diffWalk(w, w1), what)
+	}
+	k.checkSnaps(k.snaps, what)
 }
 
 // ptrIfaceValues renders the tree with map values and list elements wrapped
@@ -1160,7 +1238,7 @@ func (k *kase) representations() {
 		if st == stMixed || st == stConfigValues {
 			name = styleName[st]
 		}
-		k.checkRep(name, v, ps, b.tagOpts()...)
+		k.with(b, func() { k.checkRep(name, v, ps, b.tagOpts()...) })
 		for p := range b.parts {
 			if strings.HasPrefix(p, "elem:") {
 				k.res.SetAdd("typed_container_element", p[5:])
@@ -1243,47 +1321,11 @@ func (k *kase) flattenings(n int) []string {
 			sts = append(sts, second)
 		}
 		for _, st := range sts {
-			b := newBuilder(k.r, true)
-			b.tag, b.decoys = builderTags[k.r.Intn(len(builderTags))], true
-			v := b.node(s, st, true)
-			k.res.Eval(b.evals)
-			what := fmt.Sprintf("flattening %s (shape %s) carried by %s; tree %s", s, shape, styleName[st], k.t)
-			if b.tag != "" {
-				what += "; structs tagged `" + b.tag + "`, call with StructTag(" + b.tag + ")"
-			}
-			if b.err != nil {
-				k.res.Violate("dotted-newfrom-error:config-part:"+reasonShort(b.err), "building a nested *Config from dotted keys failed: %v; %s", b.err, what)
-				continue
-			}
-			c, err, ok := k.newFrom(what, v, append(append([]ucfg.Option{}, sepOpts...), b.tagOpts()...))
-			if !ok {
-				continue
-			}
-			sfx := ""
-			if f.listpos > 0 {
-				sfx = ":list-position"
-			}
-			if err != nil {
-				k.res.Violate("dotted-newfrom-error:"+reasonShort(err)+sfx, "NewFrom with PathSep returned %v; %s", err, what)
-				continue
-			}
-			x, ok := k.unpack(what, c, sepOpts)
-			if !ok {
-				continue
-			}
-			k.res.SetAdd("flattening_shape", shape)
-			k.res.SetAdd("flattening_carrier", styleName[st])
-			k.res.Ev("flattenings_checked", 1)
-			if got := model.CanonIfc(x); got != k.want {
-				if typ, where, found := numberChanged(k.t, x, ""); found {
-					k.res.Violate("number-not-preserved:"+typ, "a number of the input comes back as another number: %s; unpack gives %s, the tree is %s; %s", where, got, k.want, what)
-					continue
-				}
-				k.res.Violate("dotted-nested-disagree"+sfx, "unpack gives %s, the nested form gives %s; %s", got, k.want, what)
-				continue
-			}
-			if w := k.walk(what, c); k.refWalk != nil && !sameWalk(w, k.refWalk) {
-				k.res.Violate("dotted-structure-differs"+sfx, "stored structure differs from the nested form: %s; %s", diffWalk(w, k.refWalk), what)
+			k.flatOne(f, s, st, shape, "")
+			if st == stStruct || st == stMixed {
+				// struct fields are met in declaration order: the other order too
+				k.flatOne(f, s.reversed(), st, shape, "fields in the opposite order; ")
+				k.res.Ev("flattenings_in_both_field_orders", 1)
 			}
 		}
 		if len(samples) < 2 {
@@ -1291,6 +1333,73 @@ func (k *kase) flattenings(n int) []string {
 		}
 	}
 	return samples
+}
+
+// flatOne: one spelling carried by one carrier must give the nested form's
+// config, twice in a row, and leave the configs inside the input alone.
+func (k *kase) flatOne(f *flattener, s *sp, st int, shape, note string) {
+	b := newBuilder(k.r, true)
+	b.tag, b.decoys = builderTags[k.r.Intn(len(builderTags))], true
+	v := b.node(s, st, true)
+	k.res.Eval(b.evals)
+	what := fmt.Sprintf("%sflattening %s (shape %s) carried by %s; tree %s", note, s, shape, styleName[st], k.t)
+	if b.tag != "" {
+		what += "; structs tagged `" + b.tag + "`, call with StructTag(" + b.tag + ")"
+	}
+	if b.err != nil {
+		k.res.Violate("dotted-newfrom-error:config-part:"+reasonShort(b.err), "building a nested *Config from dotted keys failed: %v; %s", b.err, what)
+		return
+	}
+	opts := append(append([]ucfg.Option{}, sepOpts...), b.tagOpts()...)
+	c, err, ok := k.newFrom(what, v, opts)
+	if !ok {
+		return
+	}
+	sfx := ""
+	switch {
+	case f.partial > 0:
+		sfx = ":partial-list"
+	case f.phDict > 0:
+		sfx = ":nil-placeholder"
+	case f.listpos > 0:
+		sfx = ":list-position"
+	}
+	if err != nil {
+		k.res.Violate("dotted-newfrom-error:"+reasonShort(err)+sfx, "NewFrom with PathSep returned %v; %s", err, what)
+		return
+	}
+	x, ok := k.unpack(what, c, sepOpts)
+	if !ok {
+		return
+	}
+	k.res.SetAdd("flattening_shape", shape)
+	k.res.SetAdd("flattening_carrier", styleName[st])
+	k.res.Ev("flattenings_checked", 1)
+	if f.partial > 0 {
+		k.res.Ev("flattenings_with_partial_lists", 1)
+	}
+	if f.phDict > 0 {
+		k.res.Ev("flattenings_with_nil_placeholders", 1)
+	}
+	got := model.CanonIfc(x)
+	if got != k.want {
+		if typ, where, found := numberChanged(k.t, x, ""); found {
+			k.res.Violate("number-not-preserved:"+typ, "a number of the input comes back as another number: %s; unpack gives %s, the tree is %s; %s", where, got, k.want, what)
+			return
+		}
+		if b.inlineCfg > 0 && onlyMissing(k.t, x) {
+			k.res.Violate("inline-config-field:settings-missing", "the input has struct fields tagged inline that hold an existing Config, and settings are missing: unpack gives %s, the tree is %s; %s", got, k.want, what)
+			return
+		}
+		k.res.Violate("dotted-nested-disagree"+sfx, "unpack gives %s, the nested form gives %s; %s", got, k.want, what)
+		return
+	}
+	w := k.walk(what, c)
+	if k.refWalk != nil && !sameWalk(w, k.refWalk) {
+		k.res.Violate("dotted-structure-differs"+sfx, "stored structure differs from the nested form: %s; %s", diffWalk(w, k.refWalk), what)
+	}
+	k.checkSnaps(b.cfgs, what)
+	k.with(b, func() { k.again(what, v, opts, sepOpts, got, w) })
 }
 
 // ---------------------------------------------------------------- (4) duplicates
